@@ -637,7 +637,11 @@ namespace
     // Already seen attributes.
     std::vector <int> m_seen;
 
+    // DIEs to visit next.  This is a stack, top is at the back.
     std::vector <std::unique_ptr <value_die>> m_next;
+
+    // Where in M_NEXT the DIEs scheduled by the current DIE start.
+    size_t m_base;
 
     void
     schedule (Dwarf_Attribute &at)
@@ -649,8 +653,15 @@ namespace
       if (dwarf_formref_die (&at, &die_mem) == nullptr)
 	throw_libdw ();
 
-      m_next.push_back
-	(std::make_unique <value_die> (m_dwctx, die_mem, 0, m_doneness));
+      auto vd = std::make_unique <value_die> (m_dwctx, die_mem, 0, m_doneness);
+
+      // Visit what DW_AT_abstract_origin leads to before what
+      // DW_AT_specification leads to, whichever comes first in the DIE.
+      // That is the order in which @AT_* and libdw integrate attributes.
+      if (at.code == DW_AT_abstract_origin)
+	m_next.push_back (std::move (vd));
+      else
+	m_next.insert (m_next.begin () + m_base, std::move (vd));
     }
 
     bool
@@ -661,6 +672,7 @@ namespace
 
       m_die = std::move (m_next.back ());
       m_next.pop_back ();
+      m_base = m_next.size ();
       m_it = attr_iterator {&m_die->get_die ()};
       return true;
     }
@@ -678,6 +690,7 @@ namespace
       , m_i {0}
       , m_doneness {value->get_doneness ()}
       , m_secondary {false}
+      , m_base {0}
     {
       m_next.push_back (std::move (value));
       next_die ();
@@ -1465,15 +1478,23 @@ or replaced since the Dwarf was opened.
 }
 
 
+namespace
+{
+  // Defined below, next to find_attribute.
+  bool find_cooked_attribute (Dwarf_Die die, int atname, Dwarf_Attribute *ret_at);
+}
+
 std::unique_ptr <value_str>
 op_name_die::operate (std::unique_ptr <value_die> a) const
 {
   if (a->is_cooked ())
     {
-      // On cooked DIE's, `name` integrates.
-      const char *name = dwarf_diename (&a->get_die ());
-      if (name != nullptr)
-	return std::make_unique <value_str> (name, 0);
+      // On cooked DIE's, `name` integrates, the same way @AT_name does.
+      // (dwarf_diename follows only one of DW_AT_abstract_origin and
+      // DW_AT_specification if a DIE has both.)
+      Dwarf_Attribute attr;
+      if (find_cooked_attribute (a->get_die (), DW_AT_name, &attr))
+	return std::make_unique <value_str> (dwpp_formstring (attr), 0);
       else
 	return nullptr;
     }
@@ -1750,13 +1771,24 @@ namespace
 	      return std::make_pair (find_attribute_result::not_found, nullptr);
 	  };
 
-	auto ret = recursively_find (DW_AT_specification);
+	// Like libdw, prefer DW_AT_abstract_origin.
+	auto ret = recursively_find (DW_AT_abstract_origin);
 	if (ret.first != find_attribute_result::not_found)
 	  return ret;
-	return recursively_find (DW_AT_abstract_origin);
+	return recursively_find (DW_AT_specification);
       }
 
     return std::make_pair (find_attribute_result::not_found, nullptr);
+  }
+}
+
+namespace
+{
+  bool
+  find_cooked_attribute (Dwarf_Die die, int atname, Dwarf_Attribute *ret_at)
+  {
+    return find_attribute (die, atname, doneness::cooked, ret_at, nullptr).first
+      != find_attribute_result::not_found;
   }
 }
 
